@@ -517,8 +517,8 @@ def check_prologue(idx: Index, rep: Report) -> None:
         decided = False
         for c_ in preds:
             h = idx.try_func(PE, c_.func.id)
-            rets_ = [x for x in walk_local(h.raw_node) if isinstance(x, ast.Return) and x.value is not None]
-            hcfg = CFG(h.raw_node)
+            rets_ = [x for x in walk_local(h.as_raw().node) if isinstance(x, ast.Return) and x.value is not None]
+            hcfg = CFG(h.as_raw().node)
             for rt_ in rets_:
                 names_ = {unparse(y) for c2_ in ast.walk(rt_.value) if isinstance(c2_, ast.Compare) for y in [c2_.left] + c2_.comparators if isinstance(y, (ast.Name, ast.Attribute))}
                 for v_ in sorted(names_):
